@@ -25,6 +25,9 @@ CHECKS = {
     "C11": ("reference-model monitor: config.ArgumentParser.parse_args / CompileCommand / load_database vs the argmodel driver scanner (validated against gcc -E -dM -v) and /bin/sh word splitting; argv shrinker + mechanism classifier",
             "Every catalogue flag before/after every modelled option spelling, all ordered pairs of modelled options, random vectors of 3..25 items, command-string renderings, database files.",
             "argmodel is the reference; vectors where an unmodelled flag's value looks like an option are outside the premise", "6/C11"),
+    "C13": ("reference-model + external-oracle monitor: config.load_database / finder.find on generated databases vs pathmodel + os.path.samefile + gcc run in the entry's directory; H-log for the skip warnings",
+            "Full spelling grid (directory x file x -I spellings x 5 working directories x arguments/command form) for single entries, every kind of skipped entry in first/middle/last position, random multi-entry databases.",
+            "pathmodel confirmed by the kernel and by gcc; without `directory` paths are root-relative; a warning is demanded for missing files only", "6/C13"),
     "C16": ("reference-oracle monitor with fault injection: report.find_duplicates and the CLI duplicates report vs byte-wise partition, each case also under a forced weak digest (H-hash)",
             "Random code bases drawn from a small content pool (classes of every size, near-duplicates, excluded/symlinked/hard-linked twins).",
             "byte-wise partition is the definition; H-hash exercises the confirmation loop, not SHA-512", "6/C16"),
